@@ -6,10 +6,16 @@
 //  1. porcupine: every recorded invocation/response history of ConcurrentFactStore operations must be
 //     linearizable with respect to the set-of-atoms specification (TestC18Store). In a share of the
 //     cases the store has been wrapped again with NewConcurrentFactStore and the goroutines reach it
-//     through two or three handles; all handles are views of one store, so there is one history;
+//     through two or three handles; all handles are views of one store, so there is one history.
+//     ListPredicates is part of the specification (what it lists, as a set) and every slice it
+//     returned is compared, once the history is over, with the copy taken when it returned: the
+//     result of a completed operation must not change afterwards;
 //  2. differential: a program evaluated next to other programs gives the result it gives alone
 //     (TestC18Programs, TestC18ColdParse); in half of the cases several jobs read their base facts from
-//     simplecolumn files of their own through factstore.SimpleColumnStore (column_test.go);
+//     simplecolumn files of their own through factstore.SimpleColumnStore (column_test.go), in half
+//     of them several jobs build the intervals of a TemporalStore of their own with the date helpers
+//     of package ast, with explicit zones or through the process-wide default timezone
+//     (dates_test.go); the default timezone itself must be after a case what it was before;
 //  3. the race detector: testing.T.Failed() consults the detector's report counter, so a report is
 //     attributed to the case that was running.
 //
@@ -39,8 +45,12 @@ import (
 )
 
 // ---------------------------------------------------------------------------------------------
-// Universe: six plainly distinct atoms (no two of them share an Atom.Hash, see TestMain), so that
-// the hash-keyed base stores (known finding K08) behave as sets on it.
+// Universe: eight plainly distinct atoms (no two of them share an Atom.Hash, see TestMain), so that
+// the hash-keyed base stores (known finding K08) behave as sets on it. Three of them are facts of
+// zero-arity predicates: removing such a fact is the one way in which a store may stop listing a
+// predicate (the array store drops it, the map-of-maps stores keep the emptied key), which is what
+// makes ListPredicates a result worth judging. Indices 0-5 are what they were when the universe had
+// six atoms (replay files written then still mean the same).
 
 type uAtom struct {
 	pred string
@@ -54,9 +64,17 @@ var universeSpec = []uAtom{
 	{"p", []int64{2, 2}},
 	{"q", []int64{-1}},
 	{"z", nil},
+	{"y", nil},
+	{"w", nil},
 }
 
-const universeSize = 6
+const universeSize = 8
+
+// atomSet is a set of universe atoms, predSet a set of predicates of the universe (bit = index).
+type (
+	atomSet uint16
+	predSet uint8
+)
 
 // patterns of the pattern query; nil argument = variable (all variables distinct).
 type uPattern struct {
@@ -76,6 +94,8 @@ var patternSpec = []uPattern{
 	{"q", []*int64{nil}},
 	{"q", []*int64{num(-1)}},
 	{"z", nil},
+	{"y", nil}, // appended: pattern indices 0-8 are what they were before the universe was extended
+	{"w", nil},
 }
 
 func constOf(i int64) ast.Constant {
@@ -93,11 +113,38 @@ var (
 	universe    []ast.Atom     // built once, only read afterwards
 	universeKey map[string]int // val.AtomKey -> index
 	patterns    []ast.Atom
-	patternMask []uint8 // own matcher: which universe atoms a pattern selects
+	patternMask []atomSet // own matcher: which universe atoms a pattern selects
+
+	// predicates of the universe in order of first appearance (p/2 q/1 z/0 y/0 w/0)
+	predSyms  []ast.PredicateSym
+	predIndex map[ast.PredicateSym]int
+	predOf    []int // universe index -> predicate index
 )
+
+// predsOf returns the predicates that have at least one fact in s.
+func predsOf(s atomSet) predSet {
+	var m predSet
+	for i := 0; i < universeSize; i++ {
+		if s&(1<<i) != 0 {
+			m |= 1 << predOf[i]
+		}
+	}
+	return m
+}
+
+func predNames(m predSet) string {
+	var names []string
+	for i, p := range predSyms {
+		if m&(1<<i) != 0 {
+			names = append(names, fmt.Sprintf("%s/%d", p.Symbol, p.Arity))
+		}
+	}
+	return "[" + strings.Join(names, " ") + "]"
+}
 
 func init() {
 	universeKey = map[string]int{}
+	predIndex = map[ast.PredicateSym]int{}
 	for i, u := range universeSpec {
 		args := make([]ast.BaseTerm, len(u.args))
 		for j, a := range u.args {
@@ -106,6 +153,11 @@ func init() {
 		at := ast.NewAtom(u.pred, args...)
 		universe = append(universe, at)
 		universeKey[val.AtomKey(at)] = i
+		if _, ok := predIndex[at.Predicate]; !ok {
+			predIndex[at.Predicate] = len(predSyms)
+			predSyms = append(predSyms, at.Predicate)
+		}
+		predOf = append(predOf, predIndex[at.Predicate])
 	}
 	for _, p := range patternSpec {
 		args := make([]ast.BaseTerm, len(p.args))
@@ -117,7 +169,7 @@ func init() {
 			}
 		}
 		patterns = append(patterns, ast.NewAtom(p.pred, args...))
-		var m uint8
+		var m atomSet
 		for i, u := range universeSpec {
 			if u.pred != p.pred || len(u.args) != len(p.args) {
 				continue
@@ -161,7 +213,10 @@ const (
 	opQuery    = "query"
 	opMerge    = "merge"
 	opCount    = "count"
-	opPreds    = "preds" // ListPredicates: executed (lock coverage), result not judged
+	// ListPredicates. The result is judged twice: as a response (the set of listed predicates, see step) and as
+	// a value: the slice an operation returned must still hold what it held when the operation returned once
+	// the whole history is over (see listing).
+	opPreds = "preds"
 )
 
 // Op is one store operation of a goroutine.
@@ -204,8 +259,39 @@ type Event struct {
 	I    int    `json:"i"` // index in the goroutine's operation list
 	Call int64  `json:"call"`
 	Ret  int64  `json:"ret"`
-	Out  int64  `json:"out"` // add/remove/contains: 0|1; query: bit mask over the universe; count: n
+	Out  int64  `json:"out"` // add/remove/contains: 0|1; query: bit mask over the universe; count: n; preds: bit mask over predSyms
 	Bad  string `json:"bad,omitempty"`
+
+	lst *listing // preds, concurrent executions only
+}
+
+// listing is what a ListPredicates call handed out: the slice itself and a copy of its elements taken
+// by the calling goroutine as soon as the call had returned.
+type listing struct {
+	returned []ast.PredicateSym
+	atReturn []ast.PredicateSym
+}
+
+func symsText(l []ast.PredicateSym) string {
+	var sb strings.Builder
+	sb.WriteString("[")
+	for i, p := range l {
+		if i > 0 {
+			sb.WriteString(" ")
+		}
+		fmt.Fprintf(&sb, "%s/%d", p.Symbol, p.Arity)
+	}
+	return sb.String() + "]"
+}
+
+// changed reports whether the slice the operation returned no longer holds what it held at the return.
+func (l *listing) changed() bool {
+	for i := range l.returned {
+		if l.returned[i] != l.atReturn[i] {
+			return true
+		}
+	}
+	return false
 }
 
 // StoreCase is a generated concurrent schedule; History is filled in when a run of it failed.
@@ -218,7 +304,10 @@ type StoreCase struct {
 	// NewConcurrentFactStore(handle Wraps[k]) with Wraps[k] <= k, i.e. a concurrent store that was wrapped again
 	// (by a component that defensively wraps whatever store it is given) while the earlier handle stays in
 	// use. All handles are views of one store: one history, one specification. Empty = one handle.
-	Wraps   []int   `json:"wraps,omitempty"`
+	Wraps []int `json:"wraps,omitempty"`
+	// V: 2 = a recorded History holds what ListPredicates listed (Event.Out of a preds operation); files
+	// written before that recorded 0 for it.
+	V       int     `json:"v,omitempty"`
 	History []Event `json:"history,omitempty"`
 	Note    string  `json:"note,omitempty"`
 }
@@ -243,8 +332,8 @@ func newBase(kind string) factstore.FactStoreWithRemove {
 	panic("unknown base kind " + kind)
 }
 
-func maskOf(idx []int) uint8 {
-	var m uint8
+func maskOf(idx []int) atomSet {
+	var m atomSet
 	for _, i := range idx {
 		m |= 1 << i
 	}
@@ -252,47 +341,60 @@ func maskOf(idx []int) uint8 {
 }
 
 // ---------------------------------------------------------------------------------------------
-// Sequential specification: a set of atoms.
+// Sequential specification: a set of atoms, plus the predicates that have had a fact so far.
+//
+// ListPredicates: the base stores differ in what they list for a predicate whose last fact has been
+// removed (Simple / Indexed / MultiIndexed keep the emptied key, MultiIndexedArray drops a zero-arity
+// predicate and keeps the others), so the specification only demands what all of them agree on:
+// every predicate that has a fact at the linearization point is listed, and nothing is listed that
+// has never had a fact up to that point. (A listing with a predicate outside the universe or with the
+// same predicate twice is outside the response alphabet, see apply.)
 
 type opIn struct {
 	k    string
 	a    int
-	mask uint8
+	mask atomSet
+}
+
+type specState struct {
+	set  atomSet
+	ever predSet // predicates that have had a fact at some point (initial facts included)
 }
 
 func inputOf(o Op) opIn { return opIn{k: o.K, a: o.A, mask: maskOf(o.Set)} }
 
-func step(s uint8, in opIn, out int64) (bool, uint8) {
+func step(s specState, in opIn, out int64) (bool, specState) {
 	switch in.k {
 	case opAdd:
-		bit := uint8(1) << in.a
-		return (out == 1) == (s&bit == 0), s | bit
+		bit := atomSet(1) << in.a
+		return (out == 1) == (s.set&bit == 0), specState{s.set | bit, s.ever | 1<<predOf[in.a]}
 	case opRemove:
-		bit := uint8(1) << in.a
-		return (out == 1) == (s&bit != 0), s &^ bit
+		bit := atomSet(1) << in.a
+		return (out == 1) == (s.set&bit != 0), specState{s.set &^ bit, s.ever}
 	case opContains:
-		bit := uint8(1) << in.a
-		return (out == 1) == (s&bit != 0), s
+		bit := atomSet(1) << in.a
+		return (out == 1) == (s.set&bit != 0), s
 	case opQuery:
-		return out == int64(s&patternMask[in.a]), s
+		return out == int64(s.set&patternMask[in.a]), s
 	case opMerge:
-		return true, s | in.mask
+		return true, specState{s.set | in.mask, s.ever | predsOf(in.mask)}
 	case opCount:
-		return out == int64(bits.OnesCount8(s)), s
+		return out == int64(bits.OnesCount16(uint16(s.set))), s
 	case opPreds:
-		return true, s
+		listed := predSet(out)
+		return predsOf(s.set)&^listed == 0 && listed&^s.ever == 0, s
 	}
 	return false, s
 }
 
-func model(init uint8) porcupine.Model {
+func model(init atomSet) porcupine.Model {
 	return porcupine.Model{
-		Init: func() interface{} { return init },
+		Init: func() interface{} { return specState{init, predsOf(init)} },
 		Step: func(state, input, output interface{}) (bool, interface{}) {
-			ok, ns := step(state.(uint8), input.(opIn), output.(int64))
+			ok, ns := step(state.(specState), input.(opIn), output.(int64))
 			return ok, ns
 		},
-		Equal: func(a, b interface{}) bool { return a.(uint8) == b.(uint8) },
+		Equal: func(a, b interface{}) bool { return a.(specState) == b.(specState) },
 	}
 }
 
@@ -326,7 +428,7 @@ func core(c StoreCase, h []Event) []Event {
 
 // apply performs one operation; bad is non-empty if the response lies outside the response
 // alphabet of the specification (an atom outside the universe, an error).
-func apply(st factstore.ConcurrentFactStore, o Op, src factstore.ReadOnlyFactStore) (out int64, bad string) {
+func apply(st factstore.ConcurrentFactStore, o Op, src factstore.ReadOnlyFactStore) (out int64, bad string, lst *listing) {
 	defer func() {
 		if p := recover(); p != nil {
 			bad = fmt.Sprintf("panic: %v", p)
@@ -340,11 +442,11 @@ func apply(st factstore.ConcurrentFactStore, o Op, src factstore.ReadOnlyFactSto
 	}
 	switch o.K {
 	case opAdd:
-		return b(st.Add(universe[o.A])), ""
+		return b(st.Add(universe[o.A])), "", nil
 	case opRemove:
-		return b(st.Remove(universe[o.A])), ""
+		return b(st.Remove(universe[o.A])), "", nil
 	case opContains:
-		return b(st.Contains(universe[o.A])), ""
+		return b(st.Contains(universe[o.A])), "", nil
 	case opQuery:
 		var m int64
 		err := st.GetFacts(patterns[o.A], func(a ast.Atom) error {
@@ -362,17 +464,32 @@ func apply(st factstore.ConcurrentFactStore, o Op, src factstore.ReadOnlyFactSto
 		if err != nil {
 			bad = "query returned error: " + err.Error()
 		}
-		return m, bad
+		return m, bad, nil
 	case opMerge:
 		st.Merge(src)
-		return 0, ""
+		return 0, "", nil
 	case opCount:
-		return int64(st.EstimateFactCount()), ""
+		return int64(st.EstimateFactCount()), "", nil
 	case opPreds:
-		st.ListPredicates()
-		return 0, ""
+		// The result is copied at once, by the goroutine that asked for it: what the call returned. The
+		// slice itself is kept until the history is over.
+		l := &listing{returned: st.ListPredicates()}
+		l.atReturn = append([]ast.PredicateSym{}, l.returned...)
+		var m predSet
+		for _, p := range l.atReturn {
+			i, ok := predIndex[p]
+			switch {
+			case !ok:
+				bad = fmt.Sprintf("ListPredicates lists %s/%d, which is not a predicate of any atom of the universe: %s", p.Symbol, p.Arity, symsText(l.atReturn))
+			case m&(1<<i) != 0:
+				bad = fmt.Sprintf("ListPredicates lists %s/%d twice: %s", p.Symbol, p.Arity, symsText(l.atReturn))
+			default:
+				m |= 1 << i
+			}
+		}
+		return int64(m), bad, l
 	}
-	return 0, "unknown operation"
+	return 0, "unknown operation", nil
 }
 
 // handleOf returns the handle an operation goes through (a replay file edited by hand may name a handle
@@ -439,9 +556,9 @@ func execConcurrent(c StoreCase) []Event {
 					runtime.Gosched()
 				}
 				call := clock.Add(1)
-				out, bad := apply(handleOf(hs, o), o, srcs[ti][oi])
+				out, bad, lst := apply(handleOf(hs, o), o, srcs[ti][oi])
 				ret := clock.Add(1)
-				evs = append(evs, Event{T: ti, I: oi, Call: call, Ret: ret, Out: out, Bad: bad})
+				evs = append(evs, Event{T: ti, I: oi, Call: call, Ret: ret, Out: out, Bad: bad, lst: lst})
 			}
 			per[ti] = evs
 		}(ti)
@@ -452,6 +569,16 @@ func execConcurrent(c StoreCase) []Event {
 		h = append(h, evs...)
 	}
 	sort.Slice(h, func(i, j int) bool { return h[i].Call < h[j].Call })
+	// The history is over (all goroutines have been waited for): every listing that an operation returned
+	// must still be the value it was when the operation returned. A completed operation whose result
+	// changes afterwards has no place in any sequential order of the operations; it means that the slice
+	// is a window onto state that the store keeps modifying under its lock.
+	for i := range h {
+		if l := h[i].lst; l != nil && h[i].Bad == "" && l.changed() {
+			h[i].Bad = fmt.Sprintf("the slice returned by ListPredicates changed after the operation had completed: it held %s when the call returned and holds %s now that the history is over (the result aliases state of the store that later writers modify under the lock)",
+				symsText(l.atReturn), symsText(l.returned))
+		}
+	}
 	return h
 }
 
@@ -468,7 +595,10 @@ func barrier(arrived *atomic.Int32, n int) {
 }
 
 // execOrder runs the operations one at a time in one goroutine, in the given order of (goroutine,
-// index) pairs (a legal schedule if it keeps each goroutine's own order).
+// index) pairs (a legal schedule if it keeps each goroutine's own order). Only the responses are
+// recorded (a listing as the copy taken at the return): whether a returned slice stays what it was is
+// a question about what the concurrent store hands out from under its lock, asked of the concurrent
+// executions.
 func execOrder(c StoreCase, order [][2]int) []Event {
 	hs, srcs := prepare(c)
 	var clock int64
@@ -477,7 +607,7 @@ func execOrder(c StoreCase, order [][2]int) []Event {
 		o := c.Threads[ti[0]][ti[1]]
 		clock++
 		call := clock
-		out, bad := apply(handleOf(hs, o), o, srcs[ti[0]][ti[1]])
+		out, bad, _ := apply(handleOf(hs, o), o, srcs[ti[0]][ti[1]])
 		clock++
 		h = append(h, Event{T: ti[0], I: ti[1], Call: call, Ret: clock, Out: out, Bad: bad})
 	}
@@ -581,6 +711,24 @@ func overlaps(c StoreCase, h []Event) (ww, rw, cross bool) {
 	return
 }
 
+// listingOutlived: in this history the last fact of a zero-arity predicate was removed (successfully)
+// after a ListPredicates call that listed the predicate had returned - the situation in which a store
+// may shrink its list of predicates while somebody still holds an earlier listing.
+func listingOutlived(c StoreCase, h []Event) bool {
+	for _, e := range h {
+		if c.Threads[e.T][e.I].K != opPreds {
+			continue
+		}
+		for _, f := range h {
+			o := c.Threads[f.T][f.I]
+			if o.K == opRemove && f.Out == 1 && f.Call > e.Ret && len(universeSpec[o.A].args) == 0 && predSet(e.Out)&(1<<predOf[o.A]) != 0 {
+				return true
+			}
+		}
+	}
+	return false
+}
+
 type verdict struct {
 	nontrivial bool
 	labels     []string
@@ -633,7 +781,11 @@ func describe(c StoreCase, h []Event) string {
 		if len(c.Wraps) > 0 {
 			via = fmt.Sprintf(" via handle %d", o.H)
 		}
-		fmt.Fprintf(&sb, "  [%3d,%3d] g%d %s(%s)%s -> %d %s\n", e.Call, e.Ret, e.T, o.K, arg, via, e.Out, e.Bad)
+		res := fmt.Sprint(e.Out)
+		if o.K == opPreds {
+			res = predNames(predSet(e.Out))
+		}
+		fmt.Fprintf(&sb, "  [%3d,%3d] g%d %s(%s)%s -> %s %s\n", e.Call, e.Ret, e.T, o.K, arg, via, res, e.Bad)
 	}
 	return sb.String()
 }
@@ -642,7 +794,7 @@ func describe(c StoreCase, h []Event) string {
 // raced reports whether the race detector has reported anything since the case began (nil in replay
 // mode, where the testing package attributes the report to TestReplay itself).
 func checkStore(run *stats.Run, f stats.Failer, c StoreCase, reps int, raced func() bool) verdict {
-	c.History, c.Note = nil, ""
+	c.History, c.Note, c.V = nil, "", 2 // histories recorded from here on hold the listings
 	v := verdict{labels: []string{"base:" + c.Base, fmt.Sprintf("goroutines:%d", len(c.Threads)), fmt.Sprintf("handles:%d", 1+len(c.Wraps))}}
 	if len(c.Wraps) > 0 {
 		shape := "chain" // every handle wraps the previous one
@@ -664,6 +816,9 @@ func checkStore(run *stats.Run, f stats.Failer, c StoreCase, reps int, raced fun
 	}
 	for k := range kinds {
 		v.labels = append(v.labels, "op:"+k)
+	}
+	if kinds[opPreds] {
+		v.labels = append(v.labels, "listing-judged")
 	}
 	sort.Strings(v.labels)
 
@@ -689,7 +844,7 @@ func checkStore(run *stats.Run, f stats.Failer, c StoreCase, reps int, raced fun
 		// rapid is shrinking a schedule-dependent failure: give smaller schedules more chances to show it.
 		reps *= 8
 	}
-	anyWW, anyRW, anyCross := false, false, false
+	anyWW, anyRW, anyCross, anyOutlived := false, false, false, false
 	// reps executions; while no mutator has overlapped with another goroutine's operation yet (a busy
 	// machine), up to 2*reps further ones. More executions of the same schedule never weaken the verdict.
 	for r := 0; r < reps || (!anyWW && !anyRW && r < 3*reps); r++ {
@@ -722,6 +877,12 @@ func checkStore(run *stats.Run, f stats.Failer, c StoreCase, reps int, raced fun
 		anyWW = anyWW || ww
 		anyRW = anyRW || rw
 		anyCross = anyCross || cross
+		anyOutlived = anyOutlived || listingOutlived(c, h)
+	}
+	if anyOutlived {
+		v.labels = append(v.labels, "listing:predicate-dropped-afterwards")
+	} else if kinds[opPreds] {
+		v.labels = append(v.labels, "listing:no-predicate-dropped-afterwards")
 	}
 	if anyCross {
 		v.labels = append(v.labels, "overlap:across-handles")
@@ -749,13 +910,18 @@ func (c StoreCase) hash() uint64 {
 }
 
 func genStoreCase(t *rapid.T) StoreCase {
-	c := StoreCase{Base: rapid.SampledFrom(baseKinds).Draw(t, "base")}
+	c := StoreCase{Base: rapid.SampledFrom(baseKinds).Draw(t, "base"), V: 2}
 	initMask := rapid.IntRange(0, 1<<universeSize-1).Draw(t, "init")
 	c.Init = []int{}
 	for i := 0; i < universeSize; i++ {
 		if initMask&(1<<i) != 0 {
 			c.Init = append(c.Init, i)
 		}
+	}
+	// the initial facts are added in a generated order in half of the cases (a store that keeps its
+	// predicates in order of first insertion then has the zero-arity ones anywhere in that order)
+	if len(c.Init) > 1 && rapid.Bool().Draw(t, "initShuffled") {
+		c.Init = rapid.Permutation(c.Init).Draw(t, "initOrder")
 	}
 	n := rapid.IntRange(2, 4).Draw(t, "goroutines")
 	// Handles: in 7 of 16 cases the concurrent store has been wrapped again once or twice and the
@@ -779,19 +945,19 @@ func genStoreCase(t *rapid.T) StoreCase {
 		ops := make([]Op, k)
 		for i := range ops {
 			var o Op
-			switch w := rapid.IntRange(0, 15).Draw(t, "kind"); {
+			switch w := rapid.IntRange(0, 18).Draw(t, "kind"); {
 			case w <= 4:
 				o = Op{K: opAdd, A: rapid.IntRange(0, universeSize-1).Draw(t, "atom")}
-			case w <= 7:
+			case w <= 8:
 				o = Op{K: opRemove, A: rapid.IntRange(0, universeSize-1).Draw(t, "atom")}
-			case w <= 9:
+			case w <= 10:
 				o = Op{K: opContains, A: rapid.IntRange(0, universeSize-1).Draw(t, "atom")}
-			case w <= 12:
+			case w <= 13:
 				o = Op{K: opQuery, A: rapid.IntRange(0, len(patternSpec)-1).Draw(t, "pattern")}
 				if rapid.Bool().Draw(t, "slowCallback") {
 					o.Slow = rapid.IntRange(1, 3).Draw(t, "callbackYields")
 				}
-			case w == 13 || w == 14:
+			case w == 14 || w == 15:
 				m := rapid.IntRange(1, 1<<universeSize-1).Draw(t, "mergeset")
 				o = Op{K: opMerge}
 				if rapid.Bool().Draw(t, "slowSource") {
@@ -802,11 +968,10 @@ func genStoreCase(t *rapid.T) StoreCase {
 						o.Set = append(o.Set, i)
 					}
 				}
-			default:
+			case w == 16:
 				o = Op{K: opCount}
-				if rapid.Bool().Draw(t, "predsInstead") {
-					o = Op{K: opPreds}
-				}
+			default:
+				o = Op{K: opPreds}
 			}
 			if rapid.IntRange(0, 3).Draw(t, "yield?") == 0 {
 				o.Y = rapid.IntRange(1, 3).Draw(t, "yields")
@@ -911,6 +1076,16 @@ func TestReplay(t *testing.T) {
 		// 1. the recorded history (evidence about the tree it was recorded on) is re-checked;
 		if len(c.History) > 0 {
 			rec := c
+			if c.V < 2 {
+				// recorded before listings were part of the response: leave those (read-only) operations out
+				var kept []Event
+				for _, e := range c.History {
+					if e.T < len(c.Threads) && e.I < len(c.Threads[e.T]) && c.Threads[e.T][e.I].K != opPreds {
+						kept = append(kept, e)
+					}
+				}
+				c.History = kept
+			}
 			if linearizable(rec, c.History) {
 				t.Logf("C18 replay: the recorded history is linearizable (%s)", c.Note)
 			} else {
